@@ -32,6 +32,7 @@ fn main() {
         "capi" => h::eng_capi::main(rest),
         "mem" => h::eng_mem::main(rest),
         "compfs" => h::eng_compfs::main(rest),
+        "rloop" => h::eng_rloop::main(rest),
         e => {
             eprintln!("unknown engine {e}");
             std::process::exit(2);
